@@ -7,6 +7,7 @@ import (
 	"io"
 	"os"
 	"os/exec"
+	"runtime"
 	"strconv"
 	"strings"
 	"sync"
@@ -25,7 +26,23 @@ func childMain() {
 		os.Exit(2)
 	}
 	fmt.Println("ADDR", s.Addr)
-	io.Copy(io.Discard, os.Stdin)
+	// control channel: "STATS" on stdin is answered with "STATS <goroutines> <command reader goroutines>"
+	in := bufio.NewScanner(os.Stdin)
+	for in.Scan() {
+		if strings.TrimSpace(in.Text()) == "STATS" {
+			buf := make([]byte, 1<<20)
+			for {
+				n := runtime.Stack(buf, true)
+				if n < len(buf) {
+					buf = buf[:n]
+					break
+				}
+				buf = make([]byte, 2*len(buf))
+			}
+			// one frame "…(*Session).startCommandReader.func1" per live reader goroutine
+			fmt.Printf("STATS %d %d\n", runtime.NumGoroutine(), strings.Count(string(buf), ").startCommandReader.func1("))
+		}
+	}
 	os.RemoveAll(s.Dir)
 	os.Exit(0)
 }
@@ -36,6 +53,7 @@ type child struct {
 	addr   string
 	stderr *tailBuf
 	done   chan struct{}
+	lines  chan string // stdout lines of the child after the ADDR line
 	err    error
 	pid    int
 }
@@ -76,7 +94,7 @@ func (t *tailBuf) crashHead() string {
 }
 
 func startChild() (*child, error) {
-	c := &child{stderr: &tailBuf{}, done: make(chan struct{})}
+	c := &child{stderr: &tailBuf{}, done: make(chan struct{}), lines: make(chan string, 16)}
 	c.cmd = exec.Command(os.Args[0], "-child")
 	c.cmd.Stderr = c.stderr
 	in, err := c.cmd.StdinPipe()
@@ -100,11 +118,55 @@ func startChild() (*child, error) {
 	}
 	c.addr = strings.TrimSpace(line[5:])
 	go func() {
-		io.Copy(io.Discard, rd)
+		for {
+			l, err := rd.ReadString('\n')
+			if l != "" {
+				select {
+				case c.lines <- strings.TrimSpace(l):
+				default:
+				}
+			}
+			if err != nil {
+				break
+			}
+		}
 		c.err = c.cmd.Wait()
 		close(c.done)
 	}()
 	return c, nil
+}
+
+// stats asks the child for its goroutine count and the number of live command reader goroutines (-1, -1: no answer).
+func (c *child) stats() (int, int) {
+	for len(c.lines) > 0 {
+		<-c.lines
+	}
+	if _, err := io.WriteString(c.stdin, "STATS\n"); err != nil {
+		return -1, -1
+	}
+	select {
+	case l := <-c.lines:
+		var g, r int
+		if n, _ := fmt.Sscanf(l, "STATS %d %d", &g, &r); n == 2 {
+			return g, r
+		}
+	case <-c.done:
+	case <-time.After(20 * time.Second):
+	}
+	return -1, -1
+}
+
+// readersSettle polls until at most `want` reader goroutines are alive (they end a moment after their connection) or
+// the patience is exhausted; returns the last count.
+func (c *child) readersSettle(want int, patience time.Duration) int {
+	deadline := time.Now().Add(patience)
+	for {
+		_, r := c.stats()
+		if r < 0 || r <= want || time.Now().After(deadline) {
+			return r
+		}
+		time.Sleep(50 * time.Millisecond)
+	}
 }
 
 func (c *child) alive() bool {
